@@ -19,7 +19,8 @@ pub fn convert(f: &f::Layout) -> (r: Result<s::Layout, String>)
   ensures
     //@ C14 | every layout the converter accepts satisfies the precondition of Mapper::for_layout (so installing and driving it cannot panic)
     r is Ok ==> crate::keys::layout_ok(r.unwrap()),
-{ //@ | body  proof { axiom_fromset_key_model(); axiom_string_key_model(); assert(vstd::std_specs::hash::builds_valid_hashers::<std::collections::hash_map::RandomState>()); }
+{ //@ | body
+  proof { axiom_fromset_key_model(); axiom_string_key_model(); assert(vstd::std_specs::hash::builds_valid_hashers::<std::collections::hash_map::RandomState>()); }
   broadcast use vstd::std_specs::hash::group_hash_axioms;
   let mut res = Vec::new();
   let mut from_table: HashMap<FromSet, Vec<usize>> = HashMap::new();
@@ -956,7 +957,8 @@ fn has_duplicate_key(keys: &Vec<KeyCode>) -> (r: bool)
   ensures
     //@ C14 | the duplicate test is exact: true iff some key occurs twice
     r == !keys@.no_duplicates(),
-{ //@ | body  for i in 0..keys.len()
+{ //@ | body
+  for i in 0..keys.len()
     invariant
       forall|a: int, b: int| 0 <= a < i && a < b < keys@.len() ==> keys@[a] != keys@[b],
   {
@@ -984,7 +986,8 @@ fn check_mapping_is_usable(sm: &s::Mapping) -> (r: Result<(), String>)
   ensures
     //@ C14 | a mapping that passes the check satisfies the precondition of Mapper::for_layout (and of the event loop's timer arithmetic)
     r is Ok ==> crate::keys::mapping_ok(*sm),
-{ //@ | body  proof { axiom_fmt_user_types(); }
+{ //@ | body
+  proof { axiom_fmt_user_types(); }
   broadcast use vstd::std_specs::fmt::group_fmt_axioms;
   if sm.from.is_empty() {
     return Err(format!("A mapping to {:?} has an empty `from`", sm.to));
